@@ -1,70 +1,175 @@
 """C02 implementation runner: TabularPolicy.evaluate_on (exact policy evaluation) on generated
-MDPs x generated stochastic policies, given as a TabularPolicy over the policy's own (permuted /
-larger) state and action lists, or as a FunctionalPolicy turned into a table by Policy.to_tabular."""
+MDPs x generated stochastic policies.
+
+Representations exercised (all chosen by the case, i.e. by the harness' rng):
+  * policy given as TabularPolicy.from_state_action_lists (ndarray or nested lists, lists or tuples) over the
+    policy's own permuted / larger state list and permuted action list, as TabularPolicy.from_dict, or as a
+    FunctionalPolicy (returning a DictDistribution or a plain dict) turned into a table by Policy.to_tabular;
+  * state / action labels: ints, strings whose sorted order is reversed, tuples (with the falsy ()), strings with
+    the falsy "", floats with the falsy 0.0, and an unsortable int/str mix (state_list falls back to set order);
+  * discount rate passed as float or int;
+  * multi-step scenarios: the SAME policy object evaluated again on MDPs with re-ordered lists / on the same
+    MDP, and a SECOND policy object evaluated on the already used MDP object;
+  * error paths of evaluate_on (expected exception type is reported back).
+Everything is reported back in generator ids (ints), in the order msdm uses."""
 import os, sys
 sys.path.insert(0, os.path.dirname(os.path.abspath(__file__)))
 from build import *
 
 
-def one(case, pl):
+def label_map(kind, n):
+    if kind == "revstr":
+        return ["zyxwvutsrq"[i] for i in range(n)]
+    if kind == "tuple":
+        return [() if i == 0 else (i % 2, i) for i in range(n)]
+    if kind == "falsystr":
+        return ["" if i == 0 else "q%d" % (9 - i) for i in range(n)]
+    if kind == "float":
+        return [0.5 * i for i in range(n)]
+    if kind == "unsortable":
+        return [i if i % 2 == 0 else "o%d" % i for i in range(n)]
+    return list(range(n))
+
+
+def make_mdp(case, explicit_lists=False):
+    """QuickTabularMDP from a gen_mdp case with relabelled states/actions (same as build.build_mdp for int labels)"""
+    from msdm.core.mdp.quickmdp import QuickTabularMDP
+    from msdm.core.distributions import DictDistribution
+    m = case["mdp"]
+    lab = case.get("labels") or {}
+    LS, LA = label_map(lab.get("s"), m["n"]), label_map(lab.get("a"), m["nA"])
+    IS = {l: i for i, l in enumerate(LS)}
+    IA = {l: i for i, l in enumerate(LA)}
+    trans = {}
+    for k, row in m["trans"].items():
+        s, a = map(int, k.split(","))
+        trans[(s, a)] = DictDistribution({LS[ns]: fl(p) for ns, p in row})
+    rew = {}
+    for k, r in m["reward"].items():
+        s, a, ns = map(int, k.split(","))
+        rew[(s, a, ns)] = fl(r)
+    actions = [tuple(LA[a] for a in acts) for acts in m["actions"]]
+    absorbing = list(m["absorbing"])
+    g = fl(m["gamma"])
+    if case.get("gamma_as_int") and g == int(g):
+        g = int(g)
+    mdp = QuickTabularMDP(
+        next_state_dist=lambda s, a: trans[(IS[s], IA[a])],
+        reward=lambda s, a, ns: rew.get((IS[s], IA[a], IS[ns]), 0.0),
+        actions=lambda s: actions[IS[s]],
+        initial_state_dist=DictDistribution({LS[s]: fl(p) for s, p in m["init"]}),
+        is_absorbing=lambda s: absorbing[IS[s]],
+        discount_rate=g,
+    )
+    if explicit_lists:
+        mdp._state_list = tuple(LS)
+        mdp._action_list = tuple(LA)
+    return mdp, LS, LA, IS, IA
+
+
+def make_policy(pol, sl, al, LS, LA, IS, IA):
+    """-> (policy object, info dict); sl/al: the first MDP's lists in generator ids"""
     import numpy as np
     from msdm.core.distributions import DictDistribution
     from msdm.core.mdp.tabularpolicy import TabularPolicy
     from msdm.core.mdp.policy import FunctionalPolicy
-    mdp = build_mdp(case["mdp"], explicit_lists=case.get("explicit_lists", False))
-    sl, al = list(mdp.state_list), list(mdp.action_list)
-    pol = case["policy"]
     rows = {int(s): [(int(a), fl(p)) for a, p in r] for s, r in pol["rows"].items()}
-    res = {"state_list": sl, "action_list": al,
-           "absorbing_vec": [bool(x) for x in mdp.absorbing_state_vec]}
-    # the policy's own lists: the case gives orders over ALL generator ids; only ids the MDP
-    # knows can be columns (evaluate_on asserts policy actions <= mdp actions)
+    info = {}
+    extra = pol.get("extra_action_labels", [])          # error path: actions the MDP does not have
     pal = [a for a in pol["action_order"] if a in al]
-    if pol["form"] == "tab":
-        psl = [s for s in pol["state_order"]]                       # may contain states the MDP lacks
-        data = np.zeros((len(psl), len(pal)))
+    form = pol["form"]
+    if form in ("tab", "tab_lists"):
+        psl = list(pol["state_order"])                  # may contain states the MDP lacks
+        data = np.zeros((len(psl), len(pal) + len(extra)))
         for i, s in enumerate(psl):
             for a, p in rows[s]:
                 if a in pal:
                     data[i, pal.index(a)] = p
-        policy = TabularPolicy.from_state_action_lists(state_list=psl, action_list=pal, data=data)
+        slab, alab = [LS[s] for s in psl], [LA[a] for a in pal] + list(extra)
+        if form == "tab_lists":
+            policy = TabularPolicy.from_state_action_lists(state_list=tuple(slab), action_list=tuple(alab),
+                                                           data=[list(map(float, r)) for r in data])
+        else:
+            policy = TabularPolicy.from_state_action_lists(state_list=slab, action_list=alab, data=data)
+    elif form == "dict":
+        # one entry per available action of every MDP state (zeros explicit)
+        d = {}
+        for s in [x for x in pol["state_order"] if x in sl]:
+            row = {LA[a]: 0.0 for a in pol["avail"][str(s)]}
+            for a, p in rows[s]:
+                row[LA[a]] = p
+            d[LS[s]] = row
+        policy = TabularPolicy.from_dict(d, default_value=0.0)
     else:
-        psl = [s for s in pol["state_order"] if s in sl]            # to_tabular needs every listed action known
-        fp = FunctionalPolicy(lambda s: DictDistribution(dict(rows[s])))
-        policy = fp.to_tabular(state_list=psl, action_list=pal)
-        res["policy_type"] = type(policy).__name__
-        res["table"] = [[fj(x) for x in r] for r in np.array(policy)]
-    res["psl"], res["pal"] = psl, pal
+        psl = [s for s in pol["state_order"] if s in sl]  # to_tabular needs every listed action known
+        if form == "fun_dict":
+            fp = FunctionalPolicy(lambda s: {LA[a]: p for a, p in rows[IS[s]]})
+        else:
+            fp = FunctionalPolicy(lambda s: DictDistribution({LA[a]: p for a, p in rows[IS[s]]}))
+        policy = fp.to_tabular(state_list=[LS[s] for s in psl], action_list=[LA[a] for a in pal])
+        info["table"] = [[fj(x) for x in r] for r in np.array(policy)]
+    info["policy_type"] = type(policy).__name__
+    info["psl"] = [IS[x] for x in policy.state_list]
+    info["pal"] = [IA[x] if x in IA else -1 for x in policy.action_list]
+    if form == "dict":
+        info["table"] = [[fj(x) for x in r] for r in np.array(policy)]
+    return policy, info
 
-    def evaluate(mdp_k):
-        sl_k, al_k = list(mdp_k.state_list), list(mdp_k.action_list)
+
+def one(case, pl):
+    mdp, LS, LA, IS, IA = make_mdp(case, explicit_lists=case.get("explicit_lists", False))
+    lists = lambda mk: ([IS[x] for x in mk.state_list], [IA[x] for x in mk.action_list])
+    sl, al = lists(mdp)
+    res = {"state_list": sl, "action_list": al,
+           "absorbing_vec": [bool(x) for x in mdp.absorbing_state_vec]}     # (touches the MDP's cached matrices first)
+    policy, info = make_policy(case["policy"], sl, al, LS, LA, IS, IA)
+    res.update(info)
+
+    if case.get("expect_error"):
         try:
-            r = policy.evaluate_on(mdp_k)
+            policy.evaluate_on(mdp)
+            res["raised"] = None
+        except BaseException as e:
+            if isinstance(e, (KeyboardInterrupt, SystemExit)):
+                raise
+            res["raised"] = type(e).__name__
+        return res
+
+    def evaluate(pol_obj, mdp_k):
+        sl_k, al_k = lists(mdp_k)
+        try:
+            r = pol_obj.evaluate_on(mdp_k)
             return {"state_list": sl_k, "action_list": al_k,
-                    "V": [fj(r.state_value[s]) for s in sl_k],
-                    "Q": [[fj(r.action_value[s][a]) for a in al_k] for s in sl_k],
-                    "occ": [fj(r.state_occupancy[s]) for s in sl_k],
+                    "V": [fj(r.state_value[LS[s]]) for s in sl_k],
+                    "Q": [[fj(r.action_value[LS[s]][LA[a]]) for a in al_k] for s in sl_k],
+                    "occ": [fj(r.state_occupancy[LS[s]]) for s in sl_k],
                     "initial_value": fj(r.initial_value), "n_simulations": r.n_simulations}
         except BaseException as e:
             if isinstance(e, (KeyboardInterrupt, SystemExit)):
                 raise
             return {"state_list": sl_k, "action_list": al_k, "error": type(e).__name__ + ": " + str(e)[:300]}
 
-    first = evaluate(mdp)
+    first = evaluate(policy, mdp)
     if "error" in first:
         return {"error": first["error"]}
     res.update(first)
-    # the SAME policy object evaluated again: on MDPs with the same dynamics whose state/action lists
-    # are ordered differently (same sets, so same sizes), and once more on the first MDP
+    # multi-step: the SAME policy object again (re-ordered lists / same MDP), or ANOTHER policy object on
+    # the MDP object that has already been used
     evals = [first]
     for step in case.get("reuse", []):
         if step == "same":
-            evals.append(evaluate(mdp))
-            continue
-        m2 = build_mdp(case["mdp"])
-        m2._state_list = tuple(sorted(sl, key=lambda x: step["skeys"][x]))
-        m2._action_list = tuple(sorted(al, key=lambda x: step["akeys"][x]))
-        evals.append(evaluate(m2))
+            evals.append(evaluate(policy, mdp))
+        elif "other_policy" in step:
+            p2, info2 = make_policy(step["other_policy"], sl, al, LS, LA, IS, IA)
+            ev = evaluate(p2, mdp)
+            ev.update(info2)
+            ev["pol"] = step["other_policy"]
+            evals.append(ev)
+        else:
+            m2 = make_mdp(case)[0]
+            m2._state_list = tuple(LS[x] for x in sorted(sl, key=lambda x: step["skeys"][x]))
+            m2._action_list = tuple(LA[x] for x in sorted(al, key=lambda x: step["akeys"][x]))
+            evals.append(evaluate(policy, m2))
     res["evals"] = evals
     return res
 
